@@ -12,7 +12,7 @@ CONSTANTS
   Quirks = {}
   Amounts = {16}
   Ends = {4}
-  Starts = {0}
+  Starts = {0, 2}
   Steps = {2}
   MultNums = {1}
   MultDen = 2
